@@ -263,9 +263,14 @@ class EncodeArrayLike(Contract):
     def probes(self, case):
         if case.startswith("member-of-another"):
             return [{"callee": self.name, "script": NATIVE, "mode": "encode-foreign-member", "first": case.endswith("first"), "as_array": False}]
+        if case == "names":
+            return [{"callee": self.name, "script": NATIVE, "mode": "encode-names", "names": nm, "values": vals, "as_array": False}
+                    for nm in (["b", "c", "a"], ["d", "b", "a", "c"]) for vals in (nm[::-1], nm + ["nobody"], ["nobody"] + nm[:1], nm[:1] * 3)]
         return []
 
     def judge_native(self, I, case, call, nat):
+        if call["mode"] == "encode-names":
+            return judge(nat)
         if call["mode"] == "encode-foreign-member":
             if nat.get("kind") == "raise":
                 return "satisfies", "refused"
